@@ -17,6 +17,7 @@ from ast import (
     arguments,
 )
 from collections import OrderedDict
+from copy import deepcopy
 from functools import partial
 from itertools import chain
 from os import path, remove, replace
@@ -347,6 +348,9 @@ def class_(
     :returns: Class AST of the docstring
     :rtype: ```ClassDef```
     """
+    # Work on a copy: `returns` is folded into `params` and body nodes are rewritten below,
+    # neither of which should be visible to the caller (the same IR is emitted to several targets)
+    intermediate_repr = deepcopy(intermediate_repr)
     returns = (
         intermediate_repr["returns"]
         if "return_type" in ((intermediate_repr or {}).get("returns") or iter(()))
